@@ -191,12 +191,13 @@ def match_known(prop, viol, known):
     for k in known:
         if k.get("status") != "open":
             continue
+        sigs = []
         if prop in k["properties"]:
-            sigs = ([k["signature"]] if "signature" in k else []) + k.get("signatures", [])
-        elif prop in k.get("also_seen_under", {}).get("properties", []):
+            sigs += ([k["signature"]] if "signature" in k else []) + k.get("signatures", [])
+        if prop in k.get("also_seen_under", {}).get("properties", []):
             # the finding violates other properties; under this one it only shows as a model/implementation divergence
-            sigs = k["also_seen_under"]["signatures"]
-        else:
+            sigs += k["also_seen_under"]["signatures"]
+        if not sigs:
             continue
         for sig in sigs:
             ok = True
@@ -313,7 +314,8 @@ def run_check(prop, tier):
                         first = i
                         violations.append({"kind": "model-vs-impl", "stream": name + tag, "line": i, "op": o[:4000], "impl": str(pa)[:3000], "model": str(pb)[:3000],
                                            "opkind": o.split(" ")[0], "impl_status": a.split(" ")[0], "model_status": b.split(" ")[0],
-                                           "pow_panics": "yes" if re.search(r"p:[0-9a-f]+:[0-9a-f]+:\d+:\d+:[0-9a-f]+:panics", o) else "no"})
+                                           "pow_panics": "yes" if re.search(r"p:[0-9a-f]+:[0-9a-f]+:\d+:\d+:[0-9a-f]+:panics", o) else "no",
+                                           "grandfathered_tx": "yes" if re.search(r"(^|[ ,])g:[0-9a-f]{64}", o) else "no"})
             if len(model) != len(impl):
                 violations.append({"kind": "model-vs-impl", "stream": name + tag, "line": min(len(model), len(impl)), "op": "(stream length)", "impl": len(impl), "model": len(model), "opkind": "length"})
             # direct oracles on the implementation's results
@@ -336,6 +338,7 @@ def run_check(prop, tier):
                         if isinstance(ln, int) and 0 <= ln < len(ops):
                             j["pow_panics"] = "yes" if re.search(r"p:[0-9a-f]+:[0-9a-f]+:\d+:\d+:[0-9a-f]+:panics", ops[ln]) else "no"
                             j["opkind"] = ops[ln].split(" ")[0]
+                            j["grandfathered_tx"] = "yes" if re.search(r"(^|[ ,])g:[0-9a-f]{64}", ops[ln]) else "no"
                         j.update({"kind": "oracle:fact:" + j.get("check", ""), "stream": name + tag})
                         violations.append(j)
             if len(samples) < 4 and ops:
